@@ -274,3 +274,24 @@ package wire
 //@   ensures has(c.upstreams.aliases, streamID) && c.upstreams.aliases[streamID] == streamIDAlias
 //@   ensures has(c.upstreams.messageWriters, streamIDAlias) && c.upstreams.messageWriters[streamIDAlias] == ite(qoS == message.QoSUnreliable && c.unreliableTransport != nil, c.unreliableTransport, c.transport)
 //@   ensures forall(a, uint32, imp(a != streamIDAlias, has(c.upstreams.acks, a) == old(has(c.upstreams.acks, a)) && c.upstreams.acks[a] == old(c.upstreams.acks[a]) && has(c.upstreams.messageWriters, a) == old(has(c.upstreams.messageWriters, a)) && c.upstreams.messageWriters[a] == old(c.upstreams.messageWriters[a])))
+
+// downstream side: a subscription is refused when the alias is already taken (never silently shared
+// or replaced), otherwise a channel made for this registration is entered under exactly that alias
+//@ func (*ClientConn).newDownstreamChunkCh
+//@   props C07
+//@   requires c.downstreams != nil && c.downstreams.mu != nil && c.downstreams.dps != nil
+//@   ensures imp(old(has(c.downstreams.dps, alias)), result1 != nil && c.downstreams.dps[alias] == old(c.downstreams.dps[alias]))
+//@   ensures imp(!old(has(c.downstreams.dps, alias)), result1 == nil && fresh(result0) && has(c.downstreams.dps, alias) && c.downstreams.dps[alias] == result0)
+//@   ensures forall(a, uint32, imp(a != alias, has(c.downstreams.dps, a) == old(has(c.downstreams.dps, a)) && c.downstreams.dps[a] == old(c.downstreams.dps[a])))
+//@ func (*ClientConn).newDownstreamChunkUnreliableCh
+//@   props C07
+//@   requires c.downstreams != nil && c.downstreams.mu != nil && c.downstreams.dpsUnreliable != nil
+//@   ensures imp(old(has(c.downstreams.dpsUnreliable, alias)), result1 != nil && c.downstreams.dpsUnreliable[alias] == old(c.downstreams.dpsUnreliable[alias]))
+//@   ensures imp(!old(has(c.downstreams.dpsUnreliable, alias)), result1 == nil && fresh(result0) && has(c.downstreams.dpsUnreliable, alias) && c.downstreams.dpsUnreliable[alias] == result0)
+//@   ensures forall(a, uint32, imp(a != alias, has(c.downstreams.dpsUnreliable, a) == old(has(c.downstreams.dpsUnreliable, a)) && c.downstreams.dpsUnreliable[a] == old(c.downstreams.dpsUnreliable[a])))
+//@ func (*ClientConn).SubscribeDownstreamChunkAckComplete
+//@   props C07
+//@   requires c.downstreams != nil && c.downstreams.mu != nil && c.downstreams.ackCompletes != nil
+//@   ensures imp(old(has(c.downstreams.ackCompletes, alias)), result1 != nil && c.downstreams.ackCompletes[alias] == old(c.downstreams.ackCompletes[alias]))
+//@   ensures imp(!old(has(c.downstreams.ackCompletes, alias)), result1 == nil && fresh(result0) && has(c.downstreams.ackCompletes, alias) && c.downstreams.ackCompletes[alias] == result0)
+//@   ensures forall(a, uint32, imp(a != alias, has(c.downstreams.ackCompletes, a) == old(has(c.downstreams.ackCompletes, a)) && c.downstreams.ackCompletes[a] == old(c.downstreams.ackCompletes[a])))
